@@ -3,14 +3,55 @@ package main
 import (
 	"bytes"
 	"errors"
+	"strings"
 
 	"github.com/virus-evolution/gofasta/pkg/alphabet"
 	"github.com/virus-evolution/gofasta/pkg/fastaio"
 )
 
+// underLoad calls f repeatedly while other goroutines are inside the same package functions with other arguments (the
+// workers of variants --threads N do exactly that): a pure function gives the answer it gave alone, every time
+func underLoad(n int, alone string, f func() string) error {
+	stop := make(chan struct{})
+	done := make(chan struct{})
+	for w := 0; w < 3; w++ {
+		go func(w int) {
+			other := strings.Repeat("TGCAYRMK"[w:w+3], (n+5)/3+1)
+			for {
+				select {
+				case <-stop:
+					done <- struct{}{}
+					return
+				default:
+					alphabet.Complement(other)
+					alphabet.ReverseComplement(other[:n+1])
+					alphabet.Translate(other[:3*((n+3)/3)], false)
+				}
+			}
+		}(w)
+	}
+	var err error
+	for i := 0; i < 300 && err == nil; i++ {
+		if got := f(); got != alone {
+			err = errors.New("with other goroutines in the package the same call returned " + got + " instead of " + alone)
+		}
+	}
+	close(stop)
+	for w := 0; w < 3; w++ {
+		<-done
+	}
+	return err
+}
+
 func init() {
 	ops["translate"] = func(c Case) ([]byte, map[string]interface{}, error) {
-		t, err := alphabet.Translate(string(b64(c, "nuc")), boolean(c, "strict"))
+		nuc, strict := string(b64(c, "nuc")), boolean(c, "strict")
+		t, err := alphabet.Translate(nuc, strict)
+		if err == nil && boolean(c, "load") {
+			if e := underLoad(len(nuc), t, func() string { x, _ := alphabet.Translate(nuc, strict); return x }); e != nil {
+				return []byte(t), nil, e
+			}
+		}
 		return []byte(t), nil, err
 	}
 	ops["complement"] = func(c Case) ([]byte, map[string]interface{}, error) {
@@ -24,6 +65,17 @@ func init() {
 		}
 		if a != b {
 			return []byte(a + "|" + b), nil, errors.New("alphabet and FastaRecord complement disagree")
+		}
+		if boolean(c, "load") {
+			rev := boolean(c, "reverse")
+			if e := underLoad(len(s), a, func() string {
+				if rev {
+					return alphabet.ReverseComplement(s)
+				}
+				return alphabet.Complement(s)
+			}); e != nil {
+				return []byte(a), nil, e
+			}
 		}
 		return []byte(a), nil, nil
 	}
